@@ -2,6 +2,7 @@ package main
 
 import (
 	"go/token"
+	"go/types"
 	"regexp"
 	"sort"
 	"strings"
@@ -324,7 +325,31 @@ func seedfix3C04(c *Ctx) {
 			if s, isS := ConstString(st.Val); !isS || s != "vgi_rpc.log_extra" {
 				return
 			}
-			for _, x := range in.Block().Instrs {
+			// the value written next to the key: a slot store of a non-constant string in the same
+			// conditional region, after the key (not necessarily in the same block — the
+			// encoder may sit in between)
+			keyGuards := u.GuardStrings(in)
+			within := func(y ssa.Instruction) bool {
+				have := map[string]bool{}
+				for _, g := range u.GuardStrings(y) {
+					have[g] = true
+				}
+				for _, g := range keyGuards {
+					if !have[g] {
+						return false
+					}
+				}
+				return true
+			}
+			var cands []ssa.Instruction
+			Instrs(fn, func(y ssa.Instruction) {
+				if s2, ok := y.(*ssa.Store); ok && s2 != st && within(y) && (y.Block() == in.Block() || reachable(fn, in, y)) {
+					if bt, isB := s2.Val.Type().Underlying().(*types.Basic); isB && bt.Info()&types.IsString != 0 {
+						cands = append(cands, y)
+					}
+				}
+			})
+			for _, x := range cands {
 				st2, ok := x.(*ssa.Store)
 				if !ok || st2 == st {
 					continue
